@@ -41,12 +41,49 @@ func seededHistory(rng *rand.Rand, i int, id string) history {
 	if kind == 4 {
 		tsbd = pick(rng, 4, 14)
 	}
+	// two histories in five run on a SHIFTED channel (see shift.go): the same kinds of upload orders, a small window and
+	// at least window + 6 numbers per track, so that the renumbered storage is cleaned up for several rounds
+	var sh shift
+	shifted := i%5 == 1 || i%5 == 3
+	if shifted && kind != 4 {
+		tsbd = pick(rng, 2, 4, 6)
+	}
 	window := tsbd/segSeconds + 1
 	m := 6 + rng.Intn(9)
 	if tsbd == 30 {
 		m = 14 + rng.Intn(8)
 	}
 	start := 1 + rng.Intn(3)*7 // first sequence number 1, 8 or 15
+	if shifted {
+		if m < window+6 {
+			m = window + 6 + rng.Intn(4)
+		}
+		sh.StartNr = rng.Intn(2)
+		switch rng.Intn(7) {
+		case 0: // encoder numbers a few ahead of time / duration
+			sh.K = 1 + sh.StartNr + rng.Intn(window+2)
+		case 1: // ... or behind
+			sh.K = -(1 + rng.Intn(3))
+		case 2: // an encoder counting from 1 whatever the time
+			sh.K = -1000
+		case 3: // times off the grid
+			sh.Toff = 30000 * (1 + rng.Intn(5))
+		case 4: // both
+			sh.Toff = 30000 * (1 + rng.Intn(5))
+			sh.K = 1 + rng.Intn(3)
+		case 5: // far ahead
+			sh.K = 40 + rng.Intn(20)
+		case 6: // numbers start at startNr: NOT shifted (MediaLive), but renumbered by startNr
+			sh.StartNr = 1
+			sh.K = 1
+		}
+		if sh.K < 0 && start < 8 {
+			start = 8
+		}
+		if sh.K == -1000 {
+			sh.K = 1 + sh.StartNr - start
+		}
+	}
 	seqs := map[string][]int{}
 	for _, t := range tracks {
 		s := make([]int, m)
@@ -105,7 +142,7 @@ func seededHistory(rng *rand.Rand, i int, id string) history {
 	for _, t := range tracks {
 		weights[t] = 0.3 + rng.Float64()
 	}
-	h := history{ID: id, Src: "seed", Tracks: tracks, Tsbd: tsbd}
+	h := history{ID: id, Src: "seed", Tracks: tracks, Tsbd: tsbd, Shift: sh}
 	late := ""
 	slow := ""
 	if kind == 3 {
@@ -195,6 +232,9 @@ func seededHistory(rng *rand.Rand, i int, id string) history {
 	}
 	if slow != "" {
 		h.Class += "+slow"
+	}
+	if shifted {
+		h.Class += "+shiftcfg"
 	}
 	return h
 }
